@@ -426,15 +426,21 @@ def part_pow_num(part, amts, nums):
                     for sig, msg in run_num(w, form, s, a, k, st):
                         st.violation(sig, msg, {'world': 'catalogue',
                                                 'num': [form, s, a, k]})
-        # SI prefixes as factors of a unit (every prefix x every unit)
-        for form in ('u*k', 'k*u'):
-            for pfx in O.SI_PREFIX_EXP:
-                st.paths += 1
-                st.state(('prefix', form, s, pfx), nontrivial=True)
-                for sig, msg in run_num(w, form, s, amts[0], 'p:' + pfx, st):
-                    st.violation(sig, msg, {'world': 'catalogue',
-                                            'num': [form, s, amts[0],
-                                                    'p:' + pfx]})
+        # SI prefixes as factors of a unit (every prefix x every unit), also
+        # under directed default rounding modes: a prefix is an exact power
+        # of ten whatever mode is configured
+        for mode in ('ROUND_HALF_EVEN', 'ROUND_UP', 'ROUND_DOWN'):
+            O.set_mode(mode)
+            for form in ('u*k', 'k*u'):
+                for pfx in O.SI_PREFIX_EXP:
+                    st.paths += 1
+                    st.state(('prefix', form, s, pfx, mode), nontrivial=True)
+                    for sig, msg in run_num(w, form, s, amts[0], 'p:' + pfx,
+                                            st):
+                        st.violation(sig + ':' + mode, f"[{mode}] {msg}",
+                                     {'world': 'catalogue', 'mode': mode,
+                                      'num': [form, s, amts[0], 'p:' + pfx]})
+        O.set_mode('ROUND_HALF_EVEN')
     return st
 
 
@@ -619,6 +625,10 @@ def replay(case):
     if 'pow' in case:
         return run_pow(w, *case['pow'])
     if 'num' in case:
+        if case.get('mode'):
+            O.set_mode(case['mode'])
+            return [(sg + ':' + case['mode'], m)
+                    for sg, m in run_num(w, *case['num'])]
         return run_num(w, *case['num'])
     return run_binop(w, case['op'], case['kind'], case['u1'], case['a1'],
                      case['u2'], case['a2'])
